@@ -16,6 +16,15 @@ def _is_interrupt(err: BaseException) -> bool:
     return isinstance(err, KeyboardInterrupt)
 
 
+def _without_interrupts(err: BaseException) -> BaseException:
+    """The failures of an exception group without any KeyboardInterrupt in it"""
+    split = getattr(err, "split", None)
+    if split is None:
+        return err
+    interrupts, failures = split(KeyboardInterrupt)
+    return err if interrupts is None or failures is None else failures
+
+
 class TrioRunner(BaseRunner):
     """
     Runner for coroutines with :py:mod:`trio`
@@ -89,6 +98,10 @@ class TrioRunner(BaseRunner):
             # raised KeyboardInterrupt interrupts the runtime like in any other flavour
             if _is_interrupt(err):
                 raise KeyboardInterrupt from err
+            # a failure takes precedence over payloads that were interrupted with it
+            failures = _without_interrupts(err)
+            if failures is not err:
+                raise failures from None
             raise
 
     async def _manage_payloads_trio(self):
